@@ -235,8 +235,10 @@ class At4Zone(pyairtouch.api.Zone):
         setting: group_ctrl_msg.GroupSetting = None,
     ) -> None:
         retry_config = pyairtouch.comms.socket.RETRY_IDEMPOTENT
-        if isinstance(setting, group_ctrl_msg.GroupIncreaseDecrease) or (
-            control_method == group_ctrl_msg.GroupControlMethod.CHANGE
+        if (
+            isinstance(setting, group_ctrl_msg.GroupIncreaseDecrease)
+            or control_method == group_ctrl_msg.GroupControlMethod.CHANGE
+            or power == group_ctrl_msg.GroupPowerControl.TOGGLE
         ):
             retry_config = pyairtouch.comms.socket.RETRY_NON_IDEMPOTENT
 
